@@ -24,6 +24,11 @@ func main() {
 		usage()
 	}
 	switch os.Args[1] {
+	case "build-race":
+		if _, err := buildSim(true); err != nil {
+			fmt.Fprintln(os.Stderr, "BUILD TROUBLE:", err)
+			os.Exit(2)
+		}
 	case "build":
 		if _, err := buildSim(false); err != nil {
 			fmt.Fprintln(os.Stderr, "BUILD TROUBLE:", err)
